@@ -36,6 +36,8 @@ from term_image.padding import ExactPadding  # noqa: E402
 from term_image.renderable import Frame, Renderable  # noqa: E402
 from term_image.renderable import _renderable as R  # noqa: E402
 from term_image.render import RenderIterator  # noqa: E402
+from term_image.image.kitty import KittyImage  # noqa: E402
+from term_image.image.iterm2 import ITerm2Image  # noqa: E402
 
 NCCS = 32
 EXC = {
@@ -78,6 +80,12 @@ class VT:
         self.more_script = list(more)  # True / False / excname
         self.clock = list(clock)
         self.exhausted = False
+        # "live" mode (composite query functions): a responding terminal with a virtual clock
+        self.live = False
+        self.queue = bytearray()
+        self.replies: list = []
+        self.now = 0.0
+        self.set_log: list = []  # (action index, attrs != entry before, attrs == entry after) per executed tcsetattr
 
     # -- kernel state ---------------------------------------------------------------------
     def image(self) -> bytes:
@@ -195,7 +203,11 @@ class FakeTermios:
         parsed = v.parse(attrs)  # a TypeError here is the real module's behaviour too
 
         def eff():
+            before_ne = v.image() != v.initial
             v.k = parsed
+            v.set_log.append((v.n - 1, before_ne, v.image() == v.initial))
+            if v.live and when == T.TCSAFLUSH:
+                v.queue.clear()
 
         return v.act("set(%s,%s)" % (wn, v.describe(attrs)), eff)
 
@@ -208,10 +220,24 @@ class FakeOS:
         return getattr(os, name)
 
     def read(self, fd, n):
-        return vt().act("rd(%d)" % n, lambda: b"x" * max(1, min(n, 3)))
+        v = vt()
+        if v.live:
+            def eff():
+                data = bytes(v.queue[:n])
+                del v.queue[:n]
+                return data
+            return v.act("rd(%d)" % n, eff)
+        return v.act("rd(%d)" % n, lambda: b"x" * max(1, min(n, 3)))
 
     def write(self, fd, data):
-        return vt().act("wr", lambda: len(data))
+        v = vt()
+        if v.live:
+            def eff():
+                if v.replies:
+                    v.queue += v.replies.pop(0)  # the terminal answers
+                return len(data)
+            return v.act("wr", eff)
+        return v.act("wr", lambda: len(data))
 
     def get_terminal_size(self, fd=None):
         return os.terminal_size((80, 30))
@@ -220,12 +246,34 @@ class FakeOS:
 def fake_select(r, w, x, timeout=None):
     v = vt()
     cls = "inf" if timeout is None else ("zero" if timeout == 0 else ("pos" if timeout > 0 else "negative"))
+    if v.live:
+        def eff():
+            if v.queue:
+                return (r, [], [])
+            if timeout is None:
+                v.exhausted = True
+                raise ScriptExhausted("select would block forever")
+            v.now = round(v.now + max(timeout, 0.0), 6)  # quantised virtual clock
+            return ([], [], [])
+        return v.act("sel(%s)" % cls, eff)
     return v.act("sel(%s)" % cls, lambda: ((r if v.script(v.sel, "select") else []), [], []))
 
 
 def fake_monotonic():
     v = vt()
+    if v.live:
+        return v.act("clk", lambda: v.now)
     return v.act("clk", lambda: v.script(v.clock, "clock"))
+
+
+class FakeFcntl:
+    def __getattr__(self, name):
+        import fcntl as _f
+        return getattr(_f, name)
+
+    def ioctl(self, fd, req, buf, *a):
+        # TIOCGWINSZ reports no pixel size, so get_cell_size falls through to the XTWINOPS query
+        return vt().act("ioctl", lambda: 0)
 
 
 def fake_more(buf):
@@ -320,6 +368,7 @@ def install():
     U.select = fake_select
     U.monotonic = fake_monotonic
     U._tty_fd = 99
+    U.fcntl = FakeFcntl()
     R.termios = U.termios
     R.sleep = lambda s: vt().act("slp")
     R.get_terminal_size = lambda: os.terminal_size((80, 30))
@@ -387,6 +436,11 @@ def line_of(d: dict) -> str:
     if op == "qt":
         s = d["script"]
         return "qt %s %d %s %s" % (a, d["enabled"], fmt_timed(s["neg"], s["steps"], s["ending"]), fmt_plan(d["plan"]))
+    if op == "comp":
+        items = comp_info(d)[1]
+        if items is None:
+            return "seq-unparsed %s %s %s %s" % (d["fn"], d["variant"], a, fmt_plan(d["plan"]))
+        return "seq %s %d %s %s" % (a, len(items), " ".join(items), fmt_plan(d["plan"]))
     body = "still" if d["body"] == "still" else "anim %d" % d["body"]
     return "draw %s %d %d %s %s" % (a, d["hide"], d["nei"], body, fmt_plan(d["plan"]))
 
@@ -394,6 +448,8 @@ def line_of(d: dict) -> str:
 def execute(d: dict, plan):
     """run the real operation of case-data d under fault plan `plan`; -> (VT, outcome string)"""
     op = d["op"]
+    if op == "comp":
+        return execute_comp(d, plan)
     ka = kattrs_from(d["attrs"])
     saved_q = U._queries_enabled
     saved_out = sys.stdout
@@ -451,12 +507,213 @@ def execute(d: dict, plan):
     return v, out
 
 
+
+# ----------------------------------------------------------------------------------------
+# composite query functions (public entry points that run several mode-changing operations)
+
+NV_FULL = b"\x1bP>|kitty(0.21.2)\x1b\\\x1b[?62;c"
+NV_WEZ = b"\x1bP>|WezTerm 2023\x1b\\\x1b[?62;c"
+DA1 = b"\x1b[?62;c"
+COMPOSITES = {
+    # name: (call, {variant: [reply to the 1st write, to the 2nd, …]})
+    "name_version": (lambda: U.get_terminal_name_version(),
+                     {"full": [NV_FULL], "da1": [DA1], "none": [b""], "partial": [b"\x1bP>|ki"]}),
+    "fg_bg": (lambda: U.get_fg_bg_colors(),
+              {"full": [b"\x1b]10;rgb:ff/ff/ff\x1b\\\x1b]11;rgb:00/00/00\x1b\\" + DA1], "da1": [DA1], "none": [b""]}),
+    "cell_size": (lambda: U.get_cell_size(),
+                  {"full": [b"\x1b[6;20;10t\x1b[4;600;800t" + DA1], "da1": [DA1], "none": [b""]}),
+    "kitty_supported": (lambda: KittyImage.is_supported(),
+                        {"ok": [NV_FULL, b"\x1b_Gi=31;OK\x1b\\" + DA1], "noreply": [NV_FULL, DA1], "none": [b"", b""]}),
+    "iterm2_supported": (lambda: ITerm2Image.is_supported(), {"wez": [NV_WEZ], "none": [b""]}),
+}
+_REAL_READ_TTY = [None]
+
+
+def reset_query_state():
+    """first, uncached call; queries enabled"""
+    for f in (U.get_terminal_name_version, U.get_fg_bg_colors):
+        inv = getattr(f, "_invalidate_cache", None)
+        if inv:
+            inv()
+    U._cell_size_cache[:] = [0] * 4
+    KittyImage._supported = None
+    ITerm2Image._supported = None
+    U._queries_enabled = True
+    U._query_timeout = 0.1
+
+
+def execute_comp(d: dict, plan):
+    ka = kattrs_from(d["attrs"])
+    call, variants = COMPOSITES[d["fn"]]
+    v = VT(ka, plan)
+    v.live = True
+    v.replies = [bytes(r) for r in variants[d["variant"]]]
+    real_read_tty = U.read_tty
+    saved = (U._queries_enabled, U._query_timeout)
+
+    def read_tty_ticking(more=None, timeout=None, min=0, *, echo=False):
+        # the library's own `more` predicates become observable actions (as `fake_more` is)
+        if more is None:
+            return real_read_tty(timeout=timeout, min=min, echo=echo)
+        return real_read_tty(lambda buf: vt().act("more", lambda: more(buf)), timeout, min, echo=echo)
+
+    try:
+        reset_query_state()
+        CUR[0] = v
+        U.read_tty = read_tty_ticking
+        try:
+            call()
+            out = "normal"
+        except ScriptExhausted as e:
+            out = "script-exhausted:" + str(e)
+        except BaseException as e:  # noqa: BLE001
+            out = "raised:" + exc_name(e)
+    finally:
+        U.read_tty = real_read_tty
+        U._queries_enabled, U._query_timeout = saved
+        CUR[0] = None
+        reset_query_state()
+        U._queries_enabled, U._query_timeout = saved
+    return v, out
+
+
+class Unparsed(Exception):
+    pass
+
+
+def _flags(set_ev: str):
+    import re as _re
+    m = _re.match(r"set\((\w+),e(\d)c(\d)m(\d+)t(\d+)r(\d)\)", set_ev)
+    if not m:
+        raise Unparsed(set_ev)
+    return m.group(1), int(m.group(2)), int(m.group(3)), int(m.group(4))
+
+
+def _parse_rt(ev, i, restores):
+    if ev[i:i + 2] != ["get", "get"] or not ev[i + 2].startswith("set(now"):
+        raise Unparsed("rt head at %d" % i)
+    _, echo, _, m = _flags(ev[i + 2])
+    j = i + 3
+    if ev[j] == "sel(zero)":
+        n = 0
+        while True:
+            if ev[j] != "sel(zero)":
+                raise Unparsed("nb loop at %d" % j)
+            j += 1
+            if ev[j] == "rd(100)":
+                n += 1
+                j += 1
+            else:
+                break
+        item = "rt 0 %d nb %d" % (echo, n)
+    else:
+        if ev[j] != "clk":
+            raise Unparsed("timed start at %d" % j)
+        j += 1
+        if m > 0:
+            if ev[j] != "rd(%d)" % m or not ev[j + 1].startswith("set(now"):
+                raise Unparsed("min read at %d" % j)
+            j += 2
+        if ev[j] != "clk":
+            raise Unparsed("duration at %d" % j)
+        j += 1
+        steps, neg, ending = [], 0, "up"
+        while ev[j] == "more":
+            if ev[j + 1].startswith("sel("):
+                neg = int(ev[j + 1] == "sel(inf)")
+                j += 2
+                if ev[j] == "rd(1)":
+                    steps.append(1)
+                    j += 1
+                else:
+                    steps.append(0)
+                if ev[j] != "clk":
+                    raise Unparsed("loop clock at %d" % j)
+                j += 1
+            else:
+                ending = "stop"
+                j += 1
+                break
+        item = "rt %d %d timed %s" % (m, echo, fmt_timed(neg, steps, ending))
+    if not ev[j].startswith("set(now"):
+        raise Unparsed("rt restore at %d" % j)
+    restores.append(j)
+    return j + 1, item
+
+
+def parse_composite(ev: list):
+    """split a fault-free action sequence into `io` / `qt …` / `rt …` items (the `seq` op of the
+    driver) and list the index of every constituent's (nested ones too) restoring tcsetattr"""
+    ev = list(ev) + ["<end>", "<end>", "<end>"]
+    i, items, restores = 0, [], []
+    while ev[i] != "<end>":
+        if ev[i] == "ioctl":
+            items.append("io")
+            i += 1
+        elif ev[i:i + 2] == ["get", "get"] and ev[i + 2].startswith("set(flush"):
+            if ev[i + 3:i + 5] != ["wr", "dr"]:
+                raise Unparsed("query write at %d" % i)
+            j, rt = _parse_rt(ev, i + 5, restores)
+            parts = rt.split(" ")
+            if parts[:4] != ["rt", "0", "0", "timed"]:
+                raise Unparsed("nested read is %s" % rt)
+            if not ev[j].startswith("set(now"):
+                raise Unparsed("query restore at %d" % j)
+            restores.append(j)
+            items.append("qt " + " ".join(parts[4:]))
+            i = j + 1
+        else:
+            i, rt = _parse_rt(ev, i, restores)
+            items.append(rt)
+    return items, restores
+
+
+_COMP_CACHE: dict = {}
+
+
+def comp_info(d: dict):
+    """fault-free run of a composite: events, `seq` items (None if the structure is not a sequence
+    of the modelled operations), restore indices of all constituents, and — independently of any
+    parsing — the indices of the OUTERMOST restores: a tcsetattr that takes the attributes from
+    something else back to what they were on entry"""
+    key = (d["fn"], d["variant"], fmt_attrs(d["attrs"]), d["attrs"].get("rest"))
+    if key not in _COMP_CACHE:
+        v, out = execute_comp(d, None)
+        try:
+            items, restores = parse_composite(v.events)
+        except (Unparsed, IndexError) as e:
+            items, restores = None, []
+        outer = [k for (k, before_ne, after_eq) in v.set_log if before_ne and after_eq]
+        if len(_COMP_CACHE) > 20000:
+            _COMP_CACHE.clear()
+        _COMP_CACHE[key] = (list(v.events), items, restores, outer, out, v.image() == v.initial)
+    return _COMP_CACHE[key]
+
+
+def comp_configs(rng: random.Random):
+    while True:
+        fn = rng.choice(list(COMPOSITES))
+        variant = rng.choice(list(COMPOSITES[fn][1]))
+        yield dict(op="comp", fn=fn, variant=variant, attrs=dict(rng.choice(ATTR_GRID), rest=rng.randrange(1 << 30)))
+
+
+def all_comp_configs():
+    for fn, (_, variants) in COMPOSITES.items():
+        for variant in variants:
+            for a in (dict(echo=1, icanon=1, vmin=1, vtime=0, rest=5), dict(echo=0, icanon=0, vmin=0, vtime=0, rest=9),
+                      dict(echo=1, icanon=0, vmin=4, vtime=10, rest=3)):
+                yield dict(op="comp", fn=fn, variant=variant, attrs=a)
+
+
 _FF_CACHE: dict = {}
 
 
 def fault_free(d: dict):
     """events of the fault-free run; index of the first action of the operation's own clean-up and
     of its restoring tcsetattr (None, None when the operation never touches termios)"""
+    if d["op"] == "comp":
+        ev, items, restores, outer, out, _ = comp_info(d)
+        return ev, None, None, out
     key = line_of({**d, "plan": None})
     if key not in _FF_CACHE:
         v, out = execute(d, None)
@@ -481,6 +738,8 @@ def fault_free(d: dict):
 
 
 def in_cleanup(d: dict, v: VT) -> bool:
+    if d["op"] == "comp":  # (the driver's flag: on some constituent's restoring tcsetattr)
+        return v.fired_at is not None and v.fired_at in comp_info(d)[2]
     _, cs, rs, _ = fault_free(d)
     return v.fired_at is not None and cs is not None and cs <= v.fired_at <= rs
 
@@ -534,6 +793,8 @@ def kind_of(d, plan):
         m = "nb" if s["kind"] == "nb" else ("neg" if s["neg"] else "pos") + ("-min" if d["min"] else "")
     elif op == "qt":
         m = "off" if not d["enabled"] else ("neg" if d["script"]["neg"] else "pos")
+    elif op == "comp":
+        m = "%s-%s" % (d["fn"], d["variant"])
     else:
         m = ("still" if d["body"] == "still" else "anim") + ("" if d["nei"] else "-echo")
     f = "nofault" if plan is None else ("sigint" if plan[1] == "kbdInt" else "exc") + ("-after" if plan[2] else "-before")
@@ -553,7 +814,7 @@ class C13(Property):
         "it or right after it took effect",
         "locals of one activation (old_attr/new_attr) are not assigned by callees",
     ]
-    quick_cases = 30000
+    quick_cases = 40000
     thorough_cases = 400000
     rule = ("configurations (operation, mode script, initial attributes) are drawn from one PRNG state derived from "
             "VERIF_SEED; for each configuration EVERY fault index of its fault-free action sequence is exercised "
@@ -567,13 +828,21 @@ class C13(Property):
     # -- generator --------------------------------------------------------------------
     def generate(self, rng: random.Random, tier: str):
         install()
-        for d in configs(rng):
+        basic, comp = configs(rng), comp_configs(rng)
+        # every public composite query function × reply variant once per run (deterministic part)
+        fixed = [d for d in all_comp_configs() if d["attrs"]["rest"] == 5]
+        while True:
+            d = fixed.pop(0) if fixed else (next(comp) if rng.random() < 0.08 else next(basic))
             ev, cs, rs, _ = fault_free(d)
             n = len(ev)
             yield self.case(d, None)
             for k in range(n + 1):  # n: beyond the last action — never fires
                 for after in (0, 1):
                     pool = [e for e in EXCS if not (d["op"] == "draw" and e == "stopIteration")]
+                    if d["op"] == "comp":
+                        pool = ["kbdInt", "osError", "termiosError"]
+                        if tier == "quick":
+                            pool = ["kbdInt", "osError", "osError"]  # (quick picks kbdInt + one of pool[1:])
                     # (a StopIteration raised inside RenderIterator's generator is rewritten by
                     #  CPython/RenderIterator — generator semantics the model does not carry)
                     excs = ["kbdInt", rng.choice(pool[1:])] if tier == "quick" else pool
@@ -582,7 +851,7 @@ class C13(Property):
 
     def case(self, d, plan):
         dd = {**d, "plan": list(plan) if plan else None}
-        nontrivial = not (d["op"] == "qt" and not d["enabled"]) and not (d["op"] == "draw" and not d["nei"])
+        nontrivial = not (d["op"] == "qt" and not d.get("enabled", 1)) and not (d["op"] == "draw" and not d["nei"])
         return Case(line_of(dd), dd, kind_of(d, plan), nontrivial)
 
     # -- implementation ---------------------------------------------------------------
@@ -592,6 +861,8 @@ class C13(Property):
         plan = tuple(d["plan"]) if d["plan"] else None
         v, out = execute(d, plan)
         case._vt = v  # for the oracle (not serialised)
+        if d["op"] == "comp" and comp_info(d)[1] is None:
+            return "err unparsed-structure " + ",".join(comp_info(d)[0])[:300]
         tr = ",".join(v.events) or "-"
         return "ok %s out=%s attrs=%s fired=%d cleanup=%d" % (
             tr, out, v.final(), v.fired_at is not None, in_cleanup(d, v))
@@ -610,9 +881,14 @@ class C13(Property):
         install()
         out = []
         seen = 0
-        for d in itertools.islice(configs(random.Random(12345)), 400 if tier == "quick" else 4000):
+        # the public composite query functions first (every fake system call, SIGINT / OSError /
+        # termios.error, before and after), then the single operations
+        stream = itertools.chain(all_comp_configs(),
+                                 itertools.islice(configs(random.Random(12345)), 400 if tier == "quick" else 4000))
+        for d in stream:
             ev, _, _, _ = fault_free(d)
-            for plan in [None] + [(k, en, a) for k in range(len(ev)) for a in (0, 1) for en in ("kbdInt", "other", "termiosError")]:
+            excs = ("kbdInt", "osError", "termiosError") if d["op"] == "comp" else ("kbdInt", "other", "termiosError")
+            for plan in [None] + [(k, en, a) for k in range(len(ev)) for a in (0, 1) for en in excs]:
                 v, _ = execute(d, plan)
                 seen += 1
                 f = judge(d, plan, v)
@@ -636,7 +912,13 @@ def judge(d, plan, v: VT):
     unless the fault landed inside the operation's own clean-up"""
     if v.exhausted:
         return None  # reported as a correspondence mismatch, not as a violation
-    if in_cleanup(d, v):
+    if d["op"] == "comp":
+        # "exactly as before the call", at return or raise — unless the fault landed on an
+        # OUTERMOST restore (a tcsetattr that, in the fault-free run, brings the attributes back to
+        # their entry value); a nested operation's restore is NOT excluded
+        if v.fired_at is not None and v.fired_at in comp_info(d)[3]:
+            return None
+    elif in_cleanup(d, v):
         return None
     if v.image() != v.initial:
         where = "nofault" if v.fired_at is None else "k%d/%s/%s" % (plan[0], plan[1], "after" if plan[2] else "before")
@@ -737,6 +1019,48 @@ def finally_calls(fn):
     return out
 
 
+def termios_sites():
+    """every function of the package (AST walk over all its modules) that mentions `tcsetattr`, resp.
+    calls any `termios.tc*` function: ("module:qualname", …) sorted"""
+    import pathlib
+
+    root = pathlib.Path(term_image.__file__).resolve().parent
+    setters, callers = set(), set()
+
+    def visit(node, qual, mod):
+        for child in ast.iter_child_nodes(node):
+            if isinstance(child, (ast.FunctionDef, ast.AsyncFunctionDef, ast.ClassDef)):
+                visit(child, qual + [child.name], mod)
+                continue
+            where = "%s:%s" % (mod, ".".join(qual) if qual else "<module>")
+            for n in ast.walk(child):
+                if isinstance(n, (ast.FunctionDef, ast.AsyncFunctionDef, ast.Lambda)) and n is not child:
+                    continue
+                names = []
+                if isinstance(n, ast.Attribute):
+                    names.append(n.attr)
+                elif isinstance(n, ast.Name):
+                    names.append(n.id)
+                elif isinstance(n, ast.Constant) and isinstance(n.value, str) and len(n.value) < 40:
+                    names.append(n.value)
+                elif isinstance(n, ast.alias):
+                    names.append(n.name)
+                for nm in names:
+                    if nm in ("tcsetattr", "setraw", "setcbreak", "cfmakeraw", "cfmakecbreak"):
+                        setters.add(where)
+                    if nm in ("tcsetattr", "tcgetattr", "tcdrain", "tcflush", "tcflow", "tcsendbreak", "tcsetwinsize"):
+                        callers.add(where)
+            # nested defs inside compound statements
+            for n in ast.walk(child):
+                if isinstance(n, (ast.FunctionDef, ast.AsyncFunctionDef)) and n is not child:
+                    visit(ast.Module(body=[n], type_ignores=[]), qual, mod)
+
+    for f in sorted(root.rglob("*.py")):
+        mod = ".".join(f.relative_to(root).with_suffix("").parts)
+        visit(ast.parse(f.read_text()), [], mod)
+    return sorted(setters), sorted(callers)
+
+
 def lean_str(s: str) -> str:
     return '"' + s.replace("\\", "\\\\").replace('"', '\\"') + '"'
 
@@ -761,6 +1085,8 @@ def generated_lean() -> str:
         + skel("queryTerminalSkel", U.query_terminal)
         + skel("drawSkel", Renderable.draw)
         + skel("writeTtySkel", U.write_tty)
+        + strs("tcsetattrSites", termios_sites()[0])
+        + strs("termiosCallSites", termios_sites()[1])
         + strs("readTtyEdits", attr_edits(U.read_tty))
         + strs("queryTerminalEdits", attr_edits(U.query_terminal))
         + strs("drawEdits", attr_edits(Renderable.draw))
